@@ -87,6 +87,10 @@ func c09Catalogue(t *sim.T, m *gen.StaticModel, tb *gen.Table, variant int) []in
 		}
 		return ids[variant%len(ids)]
 	}
+	if len(tb.Header) >= 2 {
+		// a record whose cells are all empty (",,,"): every required value is missing
+		out = append(out, injection{tb.Name, "all cells blank", make([]string, len(tb.Header))})
+	}
 	switch tb.Name {
 	case "agency.txt":
 		for _, c := range []string{"agency_name", "agency_url", "agency_timezone"} {
